@@ -49,10 +49,19 @@ structure St where
   nospec : Bool := false
   regs : List (Nat × Sk) := []
   sregs : List (Nat × SReg) := []
+  /-- tree registers whose cached `current_max` is NOT the largest hash they hold (a sketch made by the
+  builder without the field, and its clones): register ↦ cached value -/
+  cms : List (Nat × Nat) := []
 
 def getR {α : Type} (l : List (Nat × α)) (i : Nat) : Option α := (l.find? (·.1 == i)).map (·.2)
 def setR {α : Type} (l : List (Nat × α)) (i : Nat) (v : α) : List (Nat × α) :=
   (i, v) :: l.filter (·.1 != i)
+
+/-- the `current_max` field of register `r` holding `s` -/
+def cmGet (st : St) (r : Nat) (s : Sk) : Nat := (getR st.cms r).getD s.curMax
+/-- record the field after an update (an exact cache needs no entry) -/
+def cmSet (cms : List (Nat × Nat)) (r : Nat) (s : Sk) (cm : Nat) : List (Nat × Nat) :=
+  if cm == s.curMax then cms.filter (·.1 != r) else setR cms r cm
 
 def parseMol (s : String) : Mol :=
   if s == "protein" then .protein else if s == "dayhoff" then .dayhoff else if s == "hp" then .hp else .dna
@@ -128,11 +137,13 @@ def binop (st : St) (capi : Bool) (op : String) (r1 r2 : Nat) : St × Resp :=
         let sa' := { sa with src := src, track := sa.track && sb.track }
         ({ st' with sregs := setR st'.sregs r1 sa' }, resp st m sa'.obs)
     else if op == "addfrom" then
-      let a' := a.addFrom st.kind b
+      let (a', cm) := if st.kind == .tree then a.addManyTc (cmGet st r1 a) b.mins else (a.addFrom st.kind b, 0)
       let sa' := { sa with src := sa.src ++ sb.keys.map (fun h => (h, 1)) }
-      ({ st with regs := setR st.regs r1 a', sregs := setR st.sregs r1 sa' }, resp st a'.obs sa'.obs)
+      ({ st with regs := setR st.regs r1 a', sregs := setR st.sregs r1 sa',
+                 cms := if st.kind == .tree then cmSet st.cms r1 a' cm else st.cms }, resp st a'.obs sa'.obs)
     else if op == "rmfrom" then
-      let a' := a.removeFrom b
+      let (a', cm) := if st.kind == .tree then a.removeManyTc (cmGet st r1 a) b.mins else (a.removeFrom b, 0)
+      let st := { st with cms := if st.kind == .tree then cmSet st.cms r1 a' cm else st.cms }
       let ks := sb.keys
       let base := if sa.num == 0 then sa.src else sa.content
       let sa' := { sa with src := base.filter (fun p => !ks.contains p.1) }
@@ -325,7 +336,39 @@ def stepCore (st : St) (capi : Bool) (ws : List String) : St × Resp :=
     | _, _, _, _ => (st, { model := "bad-reg" })
   | ["copy", r1, r2] =>
     match getR st.regs r2.toNat!, getR st.sregs r2.toNat! with
-    | some a, some sa => ({ st with regs := setR st.regs r1.toNat! a, sregs := setR st.sregs r1.toNat! sa }, { model := "ok" })
+    | some a, some sa =>
+      ({ st with regs := setR st.regs r1.toNat! a, sregs := setR st.sregs r1.toNat! sa,
+                 cms := cmSet st.cms r1.toNat! a (cmGet st r2.toNat! a) }, { model := "ok" })
+    | _, _ => (st, { model := "bad-reg" })
+  | ["build", r, ctor, maxHash, num, ksize, mol, seed, track, items] =>
+    -- a sketch handed over ready-made (builder / JSON document): the state is what was given; a JSON
+    -- document is sorted by (hash, abundance) on the way in and loses `num` next to a ceiling; the
+    -- tree builder `b` leaves `current_max` at 0
+    let r := r.toNat!
+    let tr := track == "1"
+    let ps := if ctor == "js" then sortPairs (parsePairs items) else parsePairs items
+    let nm := if ctor == "js" && maxHash.toNat! != 0 then 0 else num.toNat!
+    let sk : Sk := { num := nm, maxHash := maxHash.toNat!, ksize := ksize.toNat!, seed := seed.toNat!,
+                     mol := parseMol mol, mins := ps.map Prod.fst, abunds := if tr then some (ps.map Prod.snd) else none }
+    let sr : SReg := { num := num.toNat!, maxHash := maxHash.toNat!, ksize := ksize.toNat!,
+                       seed := seed.toNat!, mol := mol, track := tr, src := parsePairs items }
+    ({ st with regs := setR st.regs r sk, sregs := setR st.sregs r sr,
+               cms := if st.kind == .tree && ctor == "b" then cmSet st.cms r sk 0 else st.cms.filter (·.1 != r) },
+     resp st sk.obs sr.obs)
+  | ["newdef", r] =>
+    let sr : SReg := { num := 1000, maxHash := 0, ksize := 21, seed := 42, mol := "dna", track := false, src := [] }
+    ({ st with regs := setR st.regs r.toNat! Sk.defaultSk, sregs := setR st.sregs r.toNat! sr }, { model := "ok" })
+  | ["conv", r1, r2, how] =>
+    -- Clone / From conversions there and back (two conversions, each re-deriving the ceiling from
+    -- scaled()) / serde round trip: the property expects the same sketch
+    match getR st.regs r2.toNat!, getR st.sregs r2.toNat! with
+    | some a, some sa =>
+      let a' := if how == "rt" || how == "rtr" then a.convert.convert else if how == "serde" then a.serdeRoundTrip else a
+      -- `Clone` copies the cache, the other routes recompute it
+      let cms := if how == "clone" then cmSet st.cms r1.toNat! a (cmGet st r2.toNat! a) else st.cms.filter (·.1 != r1.toNat!)
+      ({ st with regs := setR st.regs r1.toNat! a', sregs := setR st.sregs r1.toNat! sa, cms := cms },
+       resp st (showParams a'.num a'.maxHash a'.ksize a'.seed (showMol a'.mol) a'.track ++ " " ++ a'.obs)
+               (showParams sa.num sa.maxHash sa.ksize sa.seed sa.mol sa.track ++ " " ++ sa.obs))
     | _, _ => (st, { model := "bad-reg" })
   | ["obs", r] =>
     match getR st.regs r.toNat!, getR st.sregs r.toNat! with
@@ -338,17 +381,20 @@ def stepCore (st : St) (capi : Bool) (ws : List String) : St × Resp :=
     | some a, some sa =>
       if op == "add" then
         let ps := parsePairs items
-        let a' := a.addManyAb st.kind ps
+        let (a', cm) := if st.kind == .tree then a.addManyAbTc (cmGet st r a) ps else (a.addManyAb st.kind ps, 0)
         let sa' := { sa with src := sa.src ++ ps }
-        ({ st with regs := setR st.regs r a', sregs := setR st.sregs r sa' }, resp st a'.obs sa'.obs)
+        ({ st with regs := setR st.regs r a', sregs := setR st.sregs r sa',
+                   cms := if st.kind == .tree then cmSet st.cms r a' cm else st.cms }, resp st a'.obs sa'.obs)
       else if op == "addm" then
         let hs := natList items
-        let a' := a.addMany st.kind hs
+        let (a', cm) := if st.kind == .tree then a.addManyTc (cmGet st r a) hs else (a.addMany st.kind hs, 0)
         let sa' := { sa with src := sa.src ++ hs.map (fun h => (h, 1)) }
-        ({ st with regs := setR st.regs r a', sregs := setR st.sregs r sa' }, resp st a'.obs sa'.obs)
+        ({ st with regs := setR st.regs r a', sregs := setR st.sregs r sa',
+                   cms := if st.kind == .tree then cmSet st.cms r a' cm else st.cms }, resp st a'.obs sa'.obs)
       else if op == "rmmany" then
         let hs := natList items
-        let a' := a.removeMany hs
+        let (a', cm) := if st.kind == .tree then a.removeManyTc (cmGet st r a) hs else (a.removeMany hs, 0)
+        let st := { st with cms := if st.kind == .tree then cmSet st.cms r a' cm else st.cms }
         let base := if sa.num == 0 then sa.src else sa.content
         let sa' := { sa with src := base.filter (fun p => !hs.contains p.1) }
         ({ st with regs := setR st.regs r a', sregs := setR st.sregs r sa' }, resp st a'.obs sa'.obs)
@@ -369,12 +415,17 @@ def stepCore (st : St) (capi : Bool) (ws : List String) : St × Resp :=
     | _, _, _, _ => (st, { model := "bad-reg" })
   | _ => (st, { model := "bad-op" })
 
+/-- the ops that leave an exact `current_max` in their target register (`new`, `merge` recompute it) -/
+def resetsCache (op : String) : Bool := ["new", "newmh", "newdef", "merge"].contains op
+
 def stepC03 (st : St) (ws : List String) : St × Resp :=
   match ws with
   | op :: rest =>
     match capiOf op with
     | some native => stepCore st true (native :: rest)
-    | none => stepCore st false ws
+    | none =>
+      let (st', r) := stepCore st false ws
+      if resetsCache op && !r.model.startsWith "err" then ({ st' with cms := st'.cms.filter (·.1 != (rest.headD "").toNat!) }, r) else (st', r)
   | [] => stepCore st false ws
 
 def main : IO Unit := Driver.run ({} : St) stepC03
